@@ -114,6 +114,16 @@ func classify(kind byte, body []byte) string {
 	return classOf(&c)
 }
 
+// nameOf is the argument of substatement i: odd ones end in a blank (a node's name is its
+// statement's argument verbatim); argOf is its quoted spelling.
+func nameOf(i int) string {
+	if i%2 == 1 {
+		return fmt.Sprintf("x%d ", i)
+	}
+	return fmt.Sprintf("x%d", i)
+}
+func argOf(i int) string { return fmt.Sprintf("%q", nameOf(i)) }
+
 func minimal(kw, arg string) string {
 	t := kwType[kw]
 	var body []string
@@ -142,9 +152,9 @@ func render(c *cas) rendered {
 	var kids []string
 	for i, k := range c.Kids {
 		if kwType[k] != "" {
-			kids = append(kids, "  "+minimal(k, fmt.Sprintf("x%d", i+1)))
+			kids = append(kids, "  "+minimal(k, argOf(i+1)))
 		} else {
-			kids = append(kids, fmt.Sprintf("  %s x%d;", k, i+1))
+			kids = append(kids, fmt.Sprintf("  %s %s;", k, argOf(i+1)))
 		}
 	}
 	body := strings.Join(kids, "\n")
@@ -242,7 +252,7 @@ func project(n yang.Node, r rendered) string {
 			st := c.Statement()
 			if st == nil || st.Keyword != tag || st.Argument != c.NName() {
 				nm += "!stmt"
-			} else if idx, err := strconv.Atoi(strings.TrimPrefix(c.NName(), "x")); err == nil {
+			} else if idx, err := strconv.Atoi(strings.TrimSpace(strings.TrimPrefix(c.NName(), "x"))); err == nil {
 				if want := fmt.Sprintf("f.yang:%d:3", r.kidLine0+idx); st.Location() != want {
 					nm += "!stmtpos(" + st.Location() + ")"
 				}
@@ -364,14 +374,14 @@ func judge(c *cas) *core.Verdict {
 	for k, idx := range fields {
 		var names []string
 		for _, i := range idx {
-			names = append(names, fmt.Sprintf("x%d", i))
+			names = append(names, nameOf(i))
 		}
 		parts = append(parts, k+"="+strings.Join(names, ","))
 	}
 	sort.Strings(parts)
 	var ex []string
 	for _, i := range c.Built.Exts {
-		ex = append(ex, fmt.Sprintf("x%d", i))
+		ex = append(ex, nameOf(i))
 	}
 	want := strings.Join(parts, " ") + " exts=" + strings.Join(ex, ",")
 	if got != want {
